@@ -1,6 +1,6 @@
 (* C39 — SSH wire encoding round-trips and integers are encoded canonically.
    Property statements only; every proof is `exact <lemma from Proofs/C39.v>`. *)
-From PV Require Import Bytes C39 C39_proofs.
+From PV Require Import Bytes C39 C39_gen C39_proofs.
 Open Scope Z_scope.
 
 (* every value written is read back unchanged, in order, consuming exactly its encoding,
@@ -54,6 +54,37 @@ Theorem C39_injective :
     encode_all fs1 = Ok bs -> encode_all fs2 = Ok bs -> fs1 = fs2.
 Proof. exact encode_injective. Qed.
 Print Assumptions C39_injective.
+
+(* the literals gen/c39.py extracts from message.py / util.py / common.py on every run (after checking
+   every modelled function body against its statement-by-statement template) are the model's *)
+Theorem C39_source_constants :
+  c39_big_int = big_int /\
+  (* get_bytes pads short reads only below 1 << 20 *)
+  (forall buf n, snd (get_bytes buf 0 n) = length (fst (get_bytes buf 0 n)) \/ n < 2 ^ c39_pad_shift) /\
+  2 ^ c39_pad_shift = 2 ^ 20 /\
+  (* struct formats and the byte counts read for them *)
+  c39_fmt_u32_bytes = 4 /\ c39_n_u32 = c39_fmt_u32_bytes /\
+  c39_fmt_u64_bytes = 8 /\ c39_n_u64 = c39_fmt_u64_bytes /\
+  c39_n_byte = 1 /\ c39_n_byte + c39_n_adaptive_rest = c39_fmt_u32_bytes /\
+  (* name-list separator *)
+  join_comma [[1]; [2]] = [1; c39_sep; 2] /\ split_comma [1; c39_sep; 2] = [[1]; [2]] /\
+  (* deflate_long: 32-bit limbs masked with 0xffffffff, FF / sign-bit tests *)
+  c39_mask32 = 2 ^ c39_def_shift - 1 /\ c39_def_shift = 32 /\ c39_def_ff = 255 /\ c39_def_sign = 128 /\
+  deflate_long (c39_def_sign - 1) true = [c39_def_sign - 1] /\
+  deflate_long c39_def_sign true = [c39_zero_byte; c39_def_sign] /\
+  deflate_long (- c39_def_sign) true = [c39_def_sign] /\
+  deflate_long (- c39_def_sign - 1) true = [c39_max_byte; c39_def_sign - 1] /\
+  (* inflate_long: words of 4 bytes shifted by 32, sign bit 0x80, 8 bits per byte *)
+  c39_inf_word = 4 /\ c39_inf_shift = c39_inf_bits * c39_inf_word /\ c39_inf_bits = 8 /\ c39_inf_sign = 128 /\
+  inflate_long [c39_inf_sign - 1] false = c39_inf_sign - 1 /\
+  inflate_long [c39_inf_sign] false = - c39_inf_sign /\
+  (* the three byte constants of paramiko.common *)
+  c39_zero_byte = 0 /\ c39_one_byte = 1 /\ c39_max_byte = 255 /\
+  encode_field (FBool true) = Ok [c39_one_byte] /\ encode_field (FBool false) = Ok [c39_zero_byte] /\
+  encode_field (FAdaptive c39_big_int) = Ok (c39_max_byte :: be_encode 4 5 ++ [0; 255; 0; 0; 0]) /\
+  encode_field (FAdaptive (c39_big_int - 1)) = Ok (be_encode 4 (c39_big_int - 1)).
+Proof. exact source_constants. Qed.
+Print Assumptions C39_source_constants.
 
 (* non-vacuity: a concrete non-trivial field list meets the hypotheses *)
 Example C39_example :
